@@ -502,14 +502,14 @@ package netceptor
 // Close removes the socket's own service name from the registry it was registered in, cancels the socket's
 // context and withdraws the advertisement it made, on every call.
 //@ func (*PacketConn).Close
-//@   tags C17
+//@   tags C17 C18
 //@   safetytags C17
 //@   safety
 //@   requires pc != nil && pc.s != nil
 //@   ghostflag unregistered set delete:map[string]*PacketConn
 //@   ghostflag cancelled set call:cancel
 //@   site delete map[string]*PacketConn UNREGISTER: [C17] requires key == pc.localService && themap == lastcall("GetListenerRegistry", 0)
-//@   site call RemoveLocalServiceAdvertisement WITHDRAW: [C17] requires arg0 == pc.localService && pc.advertise
+//@   site call RemoveLocalServiceAdvertisement WITHDRAW: [C17 C18] requires arg0 == pc.localService && pc.advertise && flag("unregistered")
 //@   ensures RELEASED: [C17] flag("unregistered") && (pc.cancel != nil ==> flag("cancelled"))
 //@   ensures WITHDRAWN: [C17] pc.advertise && result == nil ==> lastcall("RemoveLocalServiceAdvertisement", 0) == nil
 
@@ -566,8 +566,9 @@ package netceptor
 //@   requires pc != nil && pc.s != nil
 //@   site block * EXITS: [C17] requires waits(ctxdone(pc.context))
 //@ func (*PacketConn).StartUnreachable$2
-//@   tags C17
+//@   tags C17 C16
 //@   requires pc != nil && pc.s != nil && pc.unreachableSubs != nil
+//@   site call Publish OWNNOTICES: [C16] requires arg1 == box(msg) && msg.FromNode == lastcall("NodeID", 0) && msg.FromService == pc.localService
 //@   site block * EXITS: [C17] requires waits(iChan)
 //@ func (*PacketConn).SubscribeUnreachable$1
 //@   tags C17
@@ -735,3 +736,9 @@ package netceptor
 //@   site store FirewallRule.FromService VERBATIM3: [C12] requires value == lastcall("String", 0)
 //@   site store FirewallRule.ToService VERBATIM4: [C12] requires value == lastcall("String", 0)
 //@   site call firewallRule FROMTEXT: [C12] requires arg1 == fr.Action && arg0 == lastcall("BuildComps", 0) && lastcall("checkPatterns", 0) == nil
+
+// ---- C16: a notice that reached the socket's broker is handed to the subscriber: the forwarding goroutine sends
+// ---- exactly the notice it received, with a send that waits for the subscriber (never a send that is dropped)
+//@ func (*PacketConn).SubscribeUnreachable$2
+//@   tags C16
+//@   site send * RELIABLE: [C16] requires blocking() && value == msg
